@@ -34,6 +34,9 @@ type Env struct {
 	Pre   map[string]bool // prop -> precondition not met
 	Cover map[string]uint64
 	Notes []string
+	// PreIDs: goroutines that existed before this run's bubble was created
+	PreIDs map[uint64]bool
+	SimCfg simrt.Config
 }
 
 func (e *Env) Violate(prop, class, sig, format string, args ...any) {
